@@ -29,14 +29,14 @@ func gen(t *rapid.T) sw.Scenario {
 	sc.MaxBlob = rapid.SampledFrom([]uint64{0, 0, 1000, 1600}).Draw(t, "maxblob")
 	n := rapid.IntRange(3, world.Scale(25, 45)).Draw(t, "nops")
 	burstAt := -1
-	if rapid.IntRange(0, 7).Draw(t, "burst") == 0 {
+	if rapid.IntRange(0, world.Scale(29, 9)).Draw(t, "burst") == 0 {
 		burstAt = rapid.IntRange(0, n-1).Draw(t, "burstat")
 	}
 	for i := 0; i < n; i++ {
 		if i == burstAt {
 			// a long backlog (more pending blocks than any batch or page size one might think of)
 			st := pw.GoodStep(sw.GenTxs(t)...)
-			sc.Ops = append(sc.Ops, sw.Op{Kind: "produce-burst", N: rapid.SampledFrom([]int{70, 130, 300}).Draw(t, "burstn"), Step: &st})
+			sc.Ops = append(sc.Ops, sw.Op{Kind: "produce-burst", N: rapid.SampledFrom([]int{70, 70, 130, world.Scale(130, 300)}).Draw(t, "burstn"), Step: &st})
 			continue
 		}
 		switch k := rapid.IntRange(0, 19).Draw(t, "op"); {
